@@ -3,4 +3,4 @@ package main
 
 import "verifharness/drv"
 
-func main() { drv.Main(map[string]drv.Cmd{"c13": runC13, "c13race": runC13Race, "c13ack": runC13Ack}) }
+func main() { drv.Main(map[string]drv.Cmd{"c13": runC13, "c13race": runC13Race, "c13ack": runC13Ack, "c13drain": runC13Drain}) }
